@@ -114,7 +114,9 @@ func (c *BaseLayout) PutBuffer(buf *bytes.Buffer) {
 func (c *BaseLayout) GetFileLine(e *Event) string {
 	fileLine := e.File + ":" + strconv.Itoa(e.Line)
 	if n := len(fileLine); n > c.FileLineLength {
-		fileLine = "..." + fileLine[n-c.FileLineLength+3:]
+		// Keep room for the "..." prefix; widths below 3 keep nothing else.
+		keep := max(c.FileLineLength-3, 0)
+		fileLine = "..." + fileLine[n-keep:]
 	}
 	return fileLine
 }
